@@ -120,7 +120,8 @@ def sim_case(arg):
     import pde
 
     logging.getLogger("pde").setLevel(logging.ERROR)
-    eqname, gd, solver, backend, adaptive, dt, steps, seed = arg
+    eqname, gd, solver, backend, adaptive, dt, steps, seed = arg[:8]
+    solver_kw = arg[8] if len(arg) > 8 else {}
     grid = c02.make_grid(gd)
     rs = np.random.RandomState(seed)
     state = pde.ScalarField(grid, rs.uniform(-1, 1, grid.shape))
@@ -132,6 +133,7 @@ def sim_case(arg):
     vols = grid.cell_volumes
     tr = pde.CallbackTracker(lambda s, t: rec.append((t, float(s.integral), float(np.sum(vols * np.abs(s.data))))), interrupts=dt)
     kw = {"adaptive": True, "tolerance": 1e-3} if adaptive else {}
+    kw.update(solver_kw)
     try:
         eq.solve(state, t_range=dt * steps, dt=dt, solver=solver, backend=backend, tracker=[tr], **kw)
     except Exception as e:  # noqa
@@ -234,7 +236,7 @@ def run(ctx):
     solvers = [("euler", False), ("runge-kutta", False), ("implicit", False), ("crank-nicolson", False),
                ("adams-bashforth", False), ("scipy", False), ("euler", True), ("runge-kutta", True)]
     sjobs = []
-    n_sim = ctx.budget(24, 200)
+    n_sim = ctx.budget(32, 240)
     for k in range(n_sim):
         eqname = rng.choice(["diffusion", "cahn-hilliard"])
         cls_pick = rng.choice(["CartesianGrid", "CartesianGrid", "PolarSymGrid", "SphericalSymGrid", "CylindricalSymGrid"])
@@ -246,16 +248,28 @@ def run(ctx):
         gd = {"cls": cls_pick, "shape": shape, "bounds": [[l, l + d * n] for l, d, n in zip(lo, dxs, shape)], "periodic": per}
         solver, adaptive = solvers[k % len(solvers)]
         dt = 2e-4 if eqname == "cahn-hilliard" else 5e-3
-        sjobs.append((eqname, gd, solver, "numpy", adaptive, dt, rng.choice([3, 10, 25]), rng.randint(0, 10 ** 6)))
+        # documented solver options (a conserved quantity must not depend on them)
+        skw = {}
+        if solver == "crank-nicolson":
+            skw = rng.choice([{}, {"explicit_fraction": 0.3}, {"explicit_fraction": 0.5}, {"explicit_fraction": 0.1, "maxiter": 200}])
+        elif solver == "implicit":
+            skw = rng.choice([{}, {"maxiter": 200, "maxerror": 1e-6}])
+        elif solver == "scipy":
+            skw = rng.choice([{}, {"method": "RK23"}, {"method": "DOP853"}])
+        elif adaptive:
+            skw = rng.choice([{}, {"tolerance": 1e-2}, {"tolerance": 1e-5}])
+        sjobs.append((eqname, gd, solver, "numpy", adaptive, dt, rng.choice([3, 10, 25]), rng.randint(0, 10 ** 6), skw))
     res_sim = run_many("harness.c05", "sim_case", sjobs, env={"NUMBA_DISABLE_JIT": "1"}, procs=16)
     n_simj = ctx.budget(4, 24)
     jobs_j = [tuple(list(j[:3]) + ["numba"] + list(j[4:])) for j in rng.sample(sjobs, min(n_simj, len(sjobs)))]
     res_simj = run_many("harness.c05", "sim_case", jobs_j, env={"NUMBA_DISABLE_JIT": "0"}, procs=16)
     for job, rr in list(zip(sjobs, res_sim)) + list(zip(jobs_j, res_simj)):
-        eqname, gd, solver, backend, adaptive, dt, steps, seed = job
-        key = {"eq": eqname, "grid": gd, "solver": solver, "backend": backend, "adaptive": adaptive, "dt": dt, "steps": steps, "seed": seed}
+        eqname, gd, solver, backend, adaptive, dt, steps, seed, skw = job
+        key = {"eq": eqname, "grid": gd, "solver": solver, "backend": backend, "adaptive": adaptive, "dt": dt, "steps": steps, "seed": seed, "solver_options": skw}
         ctx.count(key, nontrivial=True, leg="sim")
         ctx.hist("sim", f"{eqname}:{solver}{'(adaptive)' if adaptive else ''}:{backend}:{CLS[gd['cls']]}")
+        if skw:
+            ctx.hist("solver-options", f"{solver}:{sorted(skw.items())}")
         ctx.monitor_evals += 1
         if isinstance(rr, str) or "error" in rr:
             ctx.disagree("sim", key, "runs", rr if isinstance(rr, str) else rr["error"], "simulation failed")
@@ -281,7 +295,7 @@ def replay(ctx, rep):
         print("integral", val, "scale", scale)
         return abs(val) <= 1e-10 * max(scale, 1e-300)
     if rep["leg"] == "sim":
-        rr = sim_case((c["eq"], c["grid"], c["solver"], c["backend"], c["adaptive"], c["dt"], c["steps"], c["seed"]))
+        rr = sim_case((c["eq"], c["grid"], c["solver"], c["backend"], c["adaptive"], c["dt"], c["steps"], c["seed"], c.get("solver_options", {})))
         print(rr)
         sc, ok = rr["scale"], True
         for rec_ in rr["rec"]:
